@@ -209,6 +209,9 @@ func (fe *FnEnc) applyWriteSet(st *State, ws *WriteSet, who string) {
 	if s, ok := ws.comps["alloc"]; ok {
 		fe.havocComp(st, "alloc", s)
 	}
+	for _, k := range sortedKeys(ws.structT) {
+		fe.sorts.sortOf(ws.structT[k])
+	}
 	for _, k := range sortedKeys(ws.comps) {
 		if k != "alloc" {
 			if t, ok := ws.types[k]; ok {
@@ -367,12 +370,16 @@ func (c *Ctx) writeSetOf(fn *ssa.Function) *WriteSet {
 	delete(c.wsBusy, fn)
 	ws := newWriteSet()
 	ws.addAll(d.fnWrites)
+	for k, t := range d.sorts.structT {
+		ws.structT[k] = t
+	}
 	cache[fn] = ws
 	return ws
 }
 
 // resolveModifies maps a modifies item to components:
-//   Type.field (ghost model) | field(Struct.f) | elems(T) | maps(K,V) | cells(T) | alloc | ghost(name) | raw::sort
+//
+//	Type.field (ghost model) | field(Struct.f) | elems(T) | maps(K,V) | cells(T) | alloc | ghost(name) | raw::sort
 func (fe *FnEnc) resolveModifiesAll(m string) map[string]string {
 	m = strings.TrimSpace(m)
 	out := map[string]string{}
@@ -442,7 +449,7 @@ func (fe *FnEnc) resolveModifiesAll(m string) map[string]string {
 	return out
 }
 
-var ghostCompSorts = map[string]string{"held": arrSort(sInt, sBool), "clock": sInt, "fault": sBool, "mutations": sInt, "blobReady": sBool,
+var ghostCompSorts = map[string]string{"held": arrSort(sInt, sBool), "clock": sInt, "fault": sBool, "mutations": sInt, "blobReady": sBool, "truncated": sBool, "FLAGS": arrSort(sStr, sInt),
 	"HDR": arrSort(sInt, arrSort(sStr, sStr)), "M.ResponseWriter.status": arrSort(sInt, sInt), "M.BlobCreator.written": arrSort(sInt, sInt)}
 
 func (fe *FnEnc) safeResolve(env *Env, name string) (t types.Type) {
@@ -575,6 +582,7 @@ func (fe *FnEnc) applyContract(st *State, instr ssa.Instruction, fc *FuncContrac
 	envPre := fe.callEnv(pre, pre, fc, callee, inst, args, bindings, nil)
 	envPre.pre = true
 	fe.callOrd[fc.Key]++
+	fe.cutPointsAt(st, fc.Key, fe.callOrd[fc.Key], pos, false)
 	for i := range fc.Requires {
 		cl := &fc.Requires[i]
 		props := cl.Props
@@ -624,6 +632,10 @@ func (fe *FnEnc) cutPointsAt(st *State, key string, ord int, pos token.Pos, afte
 		} else if as.Callee != key || as.K != ord {
 			continue
 		}
+		if fe.assertFired == nil {
+			fe.assertFired = map[int]bool{}
+		}
+		fe.assertFired[i] = true
 		var l *Loop
 		for _, cand := range fe.loops {
 			if fe.curBlock != nil && cand.blocks[fe.curBlock] {
